@@ -23,7 +23,7 @@ RULE = ("case = (client kind in Client/PooledClient/single-server HashClient (po
         "returns exactly the bytes (no serde: str/int as their encoded text) or an equal value of identical type "
         "(serde); multi-key results contain exactly the requested keys the server holds, each under the caller's own "
         "key object with that key's value; every command on the wire carries prefix+key and no returned key carries "
-        "the prefix. Twins (consecutive items of different type with byte-identical serialized payload, around the compression threshold) are stored through one client and one serializer object; optionally the same items are fetched again under the other spelling (str <-> bytes) of their keys and then under the first spelling again, each answer keyed by that call's own key objects. Non-trivial: the value contains CR LF or is >= 4094 bytes, or the fetch is multi-key with >= 2 "
+        "the prefix. Twins (consecutive items of different type with byte-identical serialized payload, around the compression threshold) are stored through one client and one serializer object; optionally the same items are fetched again under the other spelling (str <-> bytes) of their keys and then under the first spelling again, each answer keyed by that call's own key objects. Optionally the object has a past before the store: its connection was closed, or its server was away long enough to be given up and came back. Non-trivial: the value contains CR LF or is >= 4094 bytes, or the fetch is multi-key with >= 2 "
         "present keys, or a prefix is configured, or the key collection is not a list.")
 MANIFEST = {
     "category": "exploration",
@@ -84,10 +84,16 @@ def expected_value(v, cfg, spec):
 
 
 def check(case):
+    from vlib.harness import virtual_time
+    env = Env(pieces=case.get("pieces") or None)
+    with virtual_time(env.clock):
+        return _check(case, env)
+
+
+def _check(case, env):
     kind, cfg, spec = case["kind"], dict(case["cfg"]), case.get("serde")
     items = [(k, c15.build(vd)) for k, vd in case["items"]]
     absent = list(case.get("absent", ()))
-    env = Env(pieces=case.get("pieces") or None)
     srv = env.server
     kw = dict(cfg)
     sd = make_serde(spec)
@@ -104,6 +110,22 @@ def check(case):
             raise Violation(["raises", type(r[1]).__name__, getattr(fn, "__name__", "?")], "%s raised %r: %s" % (getattr(fn, "__name__", fn), r[1], desc))
         return r[1]
 
+    ev = case.get("event")
+    if ev:
+        # the object has a past: its connection was closed, or its server went away long enough to be given up (by a
+        # HashClient: marked dead) and came back - what is stored and fetched from here on round-trips like before
+        env.call(c.get, "warm-up")
+        if ev == "close":
+            c.close()
+        elif ev == "outage":
+            srv.down = "refused"
+            for _ in range(5):
+                env.call(c.get, "probe")
+                env.clock.advance(1.5)
+            srv.down = None
+            env.clock.advance(61)
+            env.call(c.get, "probe")
+        srv.log.clear()
     for a in case.get("stats_first", ()):
         # `stats <arg>` goes through the same key validation with an EMPTY prefix; it must not disturb later key commands
         r0 = env.call(c.stats, a)
@@ -313,7 +335,8 @@ def case_strategy(draw, tier="quick"):
     coll = draw(st.sampled_from(["list", "tuple", "set", "dictview", "iter", "generator"]))
     pieces = draw(st.one_of(st.none(), st.lists(st.sampled_from([1, 2, 3, 7, 13, 4095, 4096, 1 << 30]), min_size=1, max_size=6)))
     return {"kind": kind, "cfg": cfg, "serde": spec, "items": items, "absent": absent, "store": store, "fetch": fetch,
-            "coll": coll, "pieces": pieces, "noreply": draw(st.booleans()), "respell": draw(st.booleans())}
+            "coll": coll, "pieces": pieces, "noreply": draw(st.booleans()), "respell": draw(st.booleans()),
+            "event": draw(st.sampled_from([None, None, "close", "outage"]))}
 
 
 def grid_cases(tier, seed):
@@ -373,6 +396,14 @@ def grid_cases(tier, seed):
                     yield {"kind": kind, "cfg": {"key_prefix": pfx, "allow_unicode_keys": False, "encoding": "ascii"}, "serde": None,
                            "items": [[k, ("bytes", b"value-of-%d" % j)] for j, k in enumerate(keys)], "absent": [], "store": "set", "fetch": fetch,
                            "coll": "list", "pieces": None, "noreply": False, "respell": True}
+    # objects with a past: closed, or through an outage, before the store
+    for ev in ("close", "outage"):
+        for kind in ("client", "pooled", "hash", "hash-pooled"):
+            for spec in (None, ("pickle", 2), ("compressed", 10), ("json",)):
+                for pfx in (b"", b"life:"):
+                    yield {"kind": kind, "cfg": {"key_prefix": pfx, "allow_unicode_keys": True, "encoding": "utf-8"}, "serde": spec,
+                           "items": [["a", ("bytes", b"raw\r\nbytes")], [b"b", ("str", "zw\u00f6lf")], ["\u00fc", ("int", 3)], ["d", ("noise", 5000, 1)]], "absent": ["nope"],
+                           "store": "set_many" if pfx else "set", "fetch": "get_many" if kind.startswith("hash") else "gets", "coll": "list", "pieces": [4096], "noreply": not pfx, "event": ev}
     # every key-collection type x every multi-key fetch x every client kind
     for coll in ("list", "tuple", "set", "dictview", "iter", "generator"):
         for fetch in ("get_many", "gets_many"):
